@@ -3,7 +3,7 @@
 From Coq Require Import List ZArith Lia Bool Arith.
 Import ListNotations.
 Require Import C02.Sums C02.Batch C02.Tensor C02.Dense C02.Op C02.Model C02.Spec.
-Require Import C02.ProofsDense C02.ProofsBase C02.ProofsExpand C02.ProofsCtor.
+Require Import C02.ProofsDense C02.ProofsBase C02.ProofsExpand C02.ProofsCtor C02.ProofsBlock.
 Open Scope Z_scope.
 
 (* ---- Diag-class objects denote diagonal matrices, and diag_of reads their diagonal ---------------------------------- *)
@@ -73,11 +73,18 @@ Proof.
     assert (i = 0)%nat by lia. subst. reflexivity.
 Qed.
 
-Theorem diag_matmul_correct e o : forall r,
+Lemma wf_blockdiag b : wf (BlockDiag b) ->
+  wf b /\ rows b = cols b /\ (0 < rows b)%nat /\ exists k bs, batch b = k :: bs /\ (0 < k)%nat.
+Proof.
+  unfold wf. simpl. rewrite !andb_true_iff, Nat.eqb_eq. intros (((W & S) & P) & K). unfold pos in *.
+  apply Nat.ltb_lt in P. destruct (batch b) as [|k bs]; [discriminate|]. apply Nat.ltb_lt in K. repeat split; eauto.
+Qed.
+
+Theorem diag_matmul_correct_gen o : forall e r,
   wf e -> is_diag e = true -> wf o -> cols e = rows o ->
   diag_matmul (diag_of e) e o = Ok r -> denote r == dmm (denote e) (denote o).
 Proof.
-  induction o using Op_ind'; intros r0 HE HD HO EC HX; simpl in HX.
+  induction o using Op_ind'; intros e r0 HE HD HO EC HX; simpl in HX.
   all: pose proof (diag_of_correct _ HE HD) as DE; destruct (diag_of_shape _ HD) as (DS & DR).
   all: assert (ER : rows e = cols e) by (destruct (diag_is_diag _ HE HD) as (Eq & _); exact Eq).
   all: try (
@@ -136,31 +143,114 @@ Proof.
     + unfold rows, cols in *. congruence.
     + eapply BTeq_trans; [apply dmm_ddiag_ddiag; exact EN|]. apply ddiag_eq; [|simpl; lia].
       apply BTeq_sym. apply (raw_col_mul (diag_of e) (diag_of (KronC KKronDiag ops))). exact EN.
-  - (* BlockDiag *) discriminate.
+  - (* BlockDiag: Diag(d) @ BlockDiag(B) = BlockDiag(Diag(d cut per block) @ B) *)
+    destruct (wf_blockdiag _ HO) as (WB & SQ & PB & k & bs & EBb & PK).
+    rewrite EBb in HX. ifd HX. apply andb_true_iff in Q. destruct Q as (Q1 & Q2). apply shape_eqb_eq in Q1. apply Nat.eqb_eq in Q2.
+    binv HX. injection HX0 as <-.
+    set (d' := dview_blocks (diag_of e) k (rows o)) in *.
+    assert (IH : denote a == dmm (ddiag d') (denote o)).
+    { apply (IHo (Diag d') a); try assumption; reflexivity. }
+    assert (ESa : bsh (denote a) = k :: bs).
+    { rewrite (BTeq_bsh _ _ IH). unfold dmm, ddiag, d', dview_blocks; cbn [bsh]. rewrite Q1. change (bsh (denote o)) with (batch o). rewrite EBb. apply (bcast_refl (k :: bs)). }
+    simpl denote.
+    eapply BTeq_trans; [apply (dblockdiag_eq _ _ k bs IH ESa)|].
+    + rewrite (BTeq_nr _ _ IH). simpl. exact PB.
+    + rewrite (BTeq_nc _ _ IH). simpl. fold (cols o). rewrite <- SQ. exact PB.
+    + eapply BTeq_trans; [apply BTeq_sym; apply (dmm_ddiag_dblockdiag (diag_of e) (denote o) k bs); try assumption;
+                          try exact Q2; try (change (0 < cols o)%nat; rewrite <- SQ; exact PB)|].
+      apply dmm_eq_l; [|apply BTeq_sym; exact DE].
+      simpl. destruct (dblockdiag_shape (denote o) k bs EBb) as (T1 & _). rewrite T1, Q1. apply bcompat_refl.
 Qed.
+
+Theorem diag_matmul_correct e o r :
+  wf e -> is_diag e = true -> wf o -> cols e = rows o ->
+  diag_matmul (diag_of e) e o = Ok r -> denote r == dmm (denote e) (denote o).
+Proof. apply diag_matmul_correct_gen. Qed.
 
 (* ---- the public matmul ---------------------------------------------------------------------------------------------------- *)
 
 (* ZeroLinearOperator.matmul takes the batch shape of the right operand only (finding C02-zero-matmul-drops-batch): the
-   theorem needs the Zero's batch shape to broadcast INTO the right operand's *)
-Definition safe_matmul (e o : Op) : bool := match e with Zero b _ _ => bsub b (batch o) | _ => true end.
+   theorem needs the Zero's batch shape to broadcast INTO the right operand's.  BlockDiagLinearOperator.matmul recurses
+   into the base operators, so the condition is recursive too *)
+Fixpoint safe_matmul (e o : Op) {struct e} : bool :=
+  match e with
+  | Zero b _ _ => bsub b (batch o)
+  | BlockDiag b =>
+      match o with
+      | BlockDiag b' => if shape_eqb (fullshape b) (fullshape b') then safe_matmul b b' else true
+      | _ => if is_diag o then
+               match batch b with
+               | k :: _ => safe_matmul b (Diag (dview_blocks (diag_of o) k (cols b)))
+               | [] => true
+               end
+             else true
+      end
+  | _ => true
+  end.
 
 Lemma cdiag_denote o : is_cdiag o = true -> denote o == dconstdiag (cvals_of o) (cols o).
 Proof.
   destruct o; simpl; try discriminate; intros _; [apply BTeq_refl|apply deye_as_dconstdiag].
 Qed.
 
-Theorem alg_matmul_correct e o r :
+Lemma blockdiag_blockdiag_case b b' r : wf (BlockDiag b) -> wf (BlockDiag b') -> fullshape b = fullshape b' ->
+  denote r == dmm (denote b) (denote b') ->
+  dblockdiag (denote r) == dmm (dblockdiag (denote b)) (dblockdiag (denote b')).
+Proof.
+  intros HB HB' FS HR.
+  destruct (wf_blockdiag _ HB) as (WB & SQ & PB & k & bs & EBb & PK).
+  destruct (wf_blockdiag _ HB') as (WB' & SQ' & PB' & _).
+  unfold fullshape in FS. injection FS as FC FR FB.
+  assert (EB' : bsh (denote b') = k :: bs) by (change (batch b' = k :: bs); congruence).
+  assert (EB : bsh (denote b) = k :: bs) by exact EBb.
+  apply BTeq_sym. eapply BTeq_trans.
+  - apply (dmm_dblockdiag (denote b) (denote b') k bs EB EB').
+    + change (rows b' = cols b). congruence.
+    + change (0 < cols b)%nat. rewrite <- SQ. exact PB.
+    + exact PB.
+    + change (0 < cols b')%nat. rewrite <- SQ'. exact PB'.
+  - apply (dblockdiag_eq _ _ k bs).
+    + apply BTeq_sym. exact HR.
+    + simpl. rewrite EB, EB'. apply bcast_refl.
+    + exact PB.
+    + change (0 < cols b')%nat. rewrite <- SQ'. exact PB'.
+Qed.
+
+Lemma blockdiag_diag_case b o k bs r : wf (BlockDiag b) -> wf o -> is_diag o = true -> batch b = k :: bs ->
+  batch o = bs -> rows o = (k * cols b)%nat ->
+  denote r == dmm (denote b) (ddiag (dview_blocks (diag_of o) k (cols b))) ->
+  dblockdiag (denote r) == dmm (dblockdiag (denote b)) (denote o).
+Proof.
+  intros HB HO HD EBb EO ER HR.
+  destruct (wf_blockdiag _ HB) as (WB & SQ & PB & _).
+  pose proof (diag_of_correct _ HO HD) as DE. destruct (diag_of_shape _ HD) as (DS & DR).
+  assert (EB : bsh (denote b) = k :: bs) by exact EBb.
+  assert (PC : (0 < nc (denote b))%nat) by (change (0 < cols b)%nat; rewrite <- SQ; exact PB).
+  destruct (dblockdiag_shape (denote b) k bs EB) as (T1 & T2 & T3).
+  apply BTeq_sym. eapply BTeq_trans; [apply dmm_eq_r; [| |exact DE]|].
+  - rewrite T1. change (bsh (denote o)) with (batch o). rewrite EO. apply bcompat_refl.
+  - rewrite T3. exact ER.
+  - eapply BTeq_trans.
+    + apply (dmm_dblockdiag_ddiag (denote b) (diag_of o) k bs EB); try assumption.
+      * congruence.
+      * rewrite DR. exact ER.
+    + apply (dblockdiag_eq _ _ k bs).
+      * apply BTeq_sym. exact HR.
+      * simpl. rewrite EB, DS, EO. apply bcast_refl.
+      * exact PB.
+      * simpl. exact PC.
+Qed.
+
+Theorem alg_matmul_correct e : forall o r,
   wf e -> wf o -> cols e = rows o -> safe_matmul e o = true -> alg_matmul e o = Ok r ->
   denote r == dmm (denote e) (denote o).
 Proof.
-  intros HE HO EC HS HX.
-  destruct e; simpl in HX;
-    try (apply (mk_matmul_correct _ _ _) in HX; exact (proj1 HX));
-    try discriminate.
+  induction e using Op_ind'; intros o r0 HE HO EC HS HX.
+  all: try (cbn [alg_matmul] in HX; apply (mk_matmul_correct _ _ _) in HX; exact (proj1 HX)).
+  all: try discriminate.
   - (* Diag *) apply (diag_matmul_correct (Diag d) o); try assumption; reflexivity.
   - (* CDiag *)
-    destruct (is_cdiag o) eqn:CO.
+    cbn [alg_matmul] in HX. destruct (is_cdiag o) eqn:CO.
     + unfold alg_mul_matrix in HX; try rewrite CO in HX.
       destruct (Nat.eqb n (cols o)) eqn:EN; [|discriminate]. apply Nat.eqb_eq in EN.
       destruct (bcompat (bsh c) (bsh (cvals_of o))) eqn:CB; [|discriminate]. okinv HX.
@@ -170,18 +260,60 @@ Proof.
       * apply dmm_dconstdiag.
     + apply (diag_matmul_correct (CDiag c n) o); try assumption; reflexivity.
   - (* Ident *)
-    destruct (shape_eqb bs (batch o)) eqn:EB.
-    + okinv HX. apply shape_eqb_eq in EB. subst bs. apply BTeq_sym.
+    cbn [alg_matmul] in HX. destruct (shape_eqb b (batch o)) eqn:EB.
+    + okinv HX. apply shape_eqb_eq in EB. subst b. apply BTeq_sym.
       eapply BTeq_trans; [apply dmm_deye_l; symmetry; exact EC|]. apply dexpand_id'. apply bcast_refl.
-    + destruct (bcompat (batch o) bs) eqn:CB; [|discriminate].
+    + destruct (bcompat (batch o) b) eqn:CB; [|discriminate].
       eapply BTeq_trans; [apply alg_expand_correct; [exact HO| |exact HX]|]; [apply bsub_bcast_l; exact CB|].
       apply BTeq_sym. eapply BTeq_trans; [apply dmm_deye_l; symmetry; exact EC|].
-      rewrite (bcast_comm bs (bsh (denote o))) by (rewrite bcompat_sym; exact CB). apply BTeq_refl.
+      rewrite (bcast_comm b (bsh (denote o))) by (rewrite bcompat_sym; exact CB). apply BTeq_refl.
   - (* Zero *)
-    destruct (Nat.eqb n (rows o)); [|discriminate]. okinv HX. simpl in HS.
+    cbn [alg_matmul] in HX. destruct (Nat.eqb n (rows o)); [|discriminate]. okinv HX. simpl in HS.
     simpl. apply BTeq_sym. eapply BTeq_trans; [apply dmm_dzero_l|].
     change (bsh (denote o)) with (batch o). rewrite (bsub_bcast_eq _ _ HS). apply BTeq_refl.
   - (* KronC *)
+    cbn [alg_matmul] in HX.
     destruct k; try (apply (mk_matmul_correct _ _ _) in HX; exact (proj1 HX)).
     apply (diag_matmul_correct (KronC KKronDiag ops) o); try assumption; reflexivity.
+  - (* BlockDiag *)
+    rename e into b.
+    destruct (wf_blockdiag _ HE) as (WB & SQ & PB & k & bs & EBb & PK).
+    destruct (is_blockdiag o) eqn:IB.
+    + destruct o; try discriminate IB. rename o into b'.
+      cbn [alg_matmul] in HX. cbn [safe_matmul] in HS.
+      destruct (shape_eqb (fullshape b) (fullshape b')) eqn:FS.
+      * apply shape_eqb_eq in FS.
+        destruct (alg_matmul b b') as [r|] eqn:R; [|discriminate]. cbn [bind] in HX. okinv HX.
+        destruct (wf_blockdiag _ HO) as (WB' & _).
+        cbn [denote]. apply blockdiag_blockdiag_case; try assumption.
+        apply IHe; try assumption.
+        unfold fullshape in FS. injection FS as FC FR FB. congruence.
+      * apply (mk_matmul_correct _ _ _) in HX. exact (proj1 HX).
+    + assert (HX' : (if is_diag o then
+                       match batch b with
+                       | k :: bs =>
+                           if shape_eqb (batch o) bs && Nat.eqb (rows o) (k * cols b) then
+                             r <- alg_matmul b (Diag (dview_blocks (diag_of o) k (cols b))) ;; Ok (BlockDiag r)
+                           else Err EBug
+                       | [] => Err EBug
+                       end
+                     else mk_matmul (BlockDiag b) o) = Ok r0)
+        by (destruct o; try discriminate IB; exact HX).
+      assert (HS' : (if is_diag o then
+                       match batch b with
+                       | k :: _ => safe_matmul b (Diag (dview_blocks (diag_of o) k (cols b)))
+                       | [] => true
+                       end
+                     else true) = true)
+        by (destruct o; try discriminate IB; exact HS).
+      clear HX HS. destruct (is_diag o) eqn:D.
+      * rewrite EBb in HX', HS'.
+        destruct (shape_eqb (batch o) bs && Nat.eqb (rows o) (k * cols b)) eqn:C; [|discriminate].
+        apply andb_true_iff in C. destruct C as (C1 & C2). apply shape_eqb_eq in C1. apply Nat.eqb_eq in C2.
+        destruct (alg_matmul b (Diag (dview_blocks (diag_of o) k (cols b)))) as [r|] eqn:R; [|discriminate].
+        cbn [bind] in HX'. injection HX' as <-.
+        cbn [denote]. apply (blockdiag_diag_case b o k bs); try assumption.
+        change (ddiag (dview_blocks (diag_of o) k (cols b))) with (denote (Diag (dview_blocks (diag_of o) k (cols b)))).
+        apply IHe; try assumption; reflexivity.
+      * apply (mk_matmul_correct _ _ _) in HX'. exact (proj1 HX').
 Qed.
